@@ -217,10 +217,10 @@ type synGen struct {
 	rng   *rand.Rand
 	s     synSchema
 	weird bool // also tags the codec has no sensible meaning for (a CHOICE without an upper bound, an ENUMERATED without bounds, …)
-	// a string with a lower bound but no upper bound: a value shorter than the bound makes the encoder slice beyond the
-	// value (panic) where the model reports an error — outside every NGAP type and outside specOK; such schemas get no
-	// injected constraint violation (COVERAGE.md, model gaps)
-	lbOnly bool
+	// no string of fixed size 0: the DECODER traps on every input for such a type (GetBitString with numBits = 0 indexes
+	// dstBytes[-1]; in the model). aper-dec belongs to C14, whose judge calls a decoder panic a violation — C14 is about the
+	// NGAP schema, which has no such type; the synthetic schemas of aper-dec leave it out, aper-rt decodes it (syndec).
+	decSafe bool
 }
 
 func (g *synGen) pick(xs ...int64) int64 { return xs[g.rng.Intn(len(xs))] }
@@ -308,11 +308,9 @@ func (g *synGen) sizeTag(forList bool) string {
 	case 0:
 		return ext
 	case 1:
-		lb := g.pick(0, 0, 1, 2, 3)
-		if lb > 0 {
-			g.lbOnly = true
-		}
-		return tagJoin(ext, "sizeLB:"+i(lb))
+		// (a value shorter than a lower bound without upper bound makes the encoder slice beyond the value: a trap, in the
+		// model since this generator found it)
+		return tagJoin(ext, "sizeLB:"+i(g.pick(0, 0, 1, 2, 3)))
 	case 2:
 		n := g.pick(1, 2, 3, 8, 16, 17)
 		if forList {
@@ -326,11 +324,11 @@ func (g *synGen) sizeTag(forList bool) string {
 		}
 		return tagJoin(ext, "sizeLB:0", "sizeUB:"+i(g.pick(1, 2, 3)))
 	case 4:
-		if forList {
-			return tagJoin(ext, "sizeLB:0", "sizeUB:0") // fixed, empty
+		// fixed, empty (for a string: putBitString(bytes, 0) at an unaligned position indexes bytes[0] of an empty slice — a
+		// trap, in the model since this generator found it)
+		if forList || !g.decSafe {
+			return tagJoin(ext, "sizeLB:0", "sizeUB:0")
 		}
-		// (a string of fixed size 0 is left out: putBitString(bytes, 0) at an unaligned position indexes bytes[0] of an
-		// empty slice, the model writes nothing — outside every NGAP type; COVERAGE.md, model gaps)
 	case 5:
 		return tagJoin(ext, "sizeLB:"+i(g.pick(0, 1)), "sizeUB:"+i(g.pick(255, 256, 257)))
 	case 6:
@@ -428,6 +426,9 @@ func (g *synGen) sequence(depth int) string {
 			if ty[0] != '*' && ty[0] != '[' {
 				ty = "*" + ty
 			}
+			tag = tagJoin(tag, "optional")
+		} else if g.weird && g.rng.Intn(30) == 0 && ty[0] != '*' && ty[0] != '[' {
+			// OPTIONAL on a Go type that cannot be nil: the encoder asks IsNil of it — a trap (on a []byte type: present)
 			tag = tagJoin(tag, "optional")
 		}
 		st.fields = append(st.fields, synField{synNames[k], ty, tag})
@@ -528,9 +529,8 @@ func (g *synGen) openTypeSeq(depth int) string {
 }
 
 // newSynSchema: a random schema and the type / parameter string to code at the top
-func newSynSchema(rng *rand.Rand, weird bool) (schema string, ty string, params string, lbOnly bool) {
-	g := &synGen{rng: rng, weird: weird}
-	defer func() { lbOnly = g.lbOnly }()
+func newSynSchema(rng *rand.Rand, weird, decSafe bool) (schema string, ty string, params string) {
+	g := &synGen{rng: rng, weird: weird, decSafe: decSafe}
 	switch rng.Intn(10) {
 	case 0, 1:
 		// a leaf wrapper: one constrained primitive
@@ -556,7 +556,7 @@ func newSynSchema(rng *rand.Rand, weird bool) (schema string, ty string, params 
 		ty = g.sequence(2)
 		params = g.pickS("", "valueExt")
 	}
-	return g.s.String(), ty, params, false
+	return g.s.String(), ty, params
 }
 
 // synSetRef: make the reference field of every open-type field agree with the alternative chosen (vgen.fill does this for
@@ -651,6 +651,17 @@ var synDirectedEnc = []string{
 	"T0=A~b~sizeLB:4,sizeUB:100000 S0 - ( b2:c0 )",
 	"T0=A~b~sizeLB:4,sizeUB:100000 S0 - ( b4:c0 )",
 	"T0=A~s~sizeExt,sizeLB:2,sizeUB:65536 S0 - ( s41 )",
+	// a string of fixed size 0: nothing is written at an octet boundary, putBitString(bytes, 0) traps anywhere else
+	"T0=A~o~sizeLB:0,sizeUB:0 S0 - ( o- )", "T0=A~o~sizeLB:0,sizeUB:0 S0 valueExt ( o- )", "T0=A~t~;B~b~sizeLB:0,sizeUB:0 S0 - ( t b0:- )",
+	"T0=A~s~sizeExt,sizeLB:0,sizeUB:0 S0 - ( s- )", "T0=A~s~sizeExt,sizeLB:0,sizeUB:0 S0 - ( s41 )", "T0=A~o~sizeLB:0,sizeUB:0 S0 - ( o41 )",
+	// a lower bound without upper bound and a shorter value: length - lb wraps, a 64K fragment is announced, the slice traps;
+	// with an upper bound the wrapped length does not fit the constrained length field: refused
+	"T0=A~o~sizeLB:2 S0 - ( o01 )", "T0=A~o~sizeLB:2 S0 - ( o0102 )", "T0=A~b~sizeLB:3 S0 - ( b2:40 )", "T0=A~s~sizeLB:1 S0 - ( s- )",
+	"T0=A~o~sizeLB:2,sizeUB:9 S0 - ( o01 )", "T0=A~o~sizeLB:2,sizeUB:300 S0 - ( o01 )", "T0=A~b~sizeLB:3,sizeUB:65535 S0 - ( b2:40 )",
+	// OPTIONAL on a type that cannot be nil (IsNil traps) / on a []byte type (present) / behind a refused mandatory nil pointer
+	"T0=A~t~optional;B~t~ S0 - ( f t )", "T0=A~i~valueLB:0,valueUB:7,optional S0 - ( i3 )", "T0=A~e~valueLB:0,valueUB:3,optional S0 valueExt ( e1 )",
+	"T0=A~b~sizeLB:1,sizeUB:8,optional S0 - ( b3:a0 )", "T0=A~s~optional S0 - ( s41 )", "T0=A~o~sizeLB:0,sizeUB:4,optional;B~t~ S0 - ( o0102 t )",
+	"T0=A~d~optional;B~t~ S0 - ( d2a03 t )", "T0=A~*t~;B~t~optional S0 - ( n f )", "T0=A~t~optional;B~*t~ S0 - ( t n )", "T0=|T1=A~S0~optional S1 - ( ( ) )",
 	// appendEnumerated: below a lower bound other than 0; without bounds
 	"T0=A~e~valueLB:2,valueUB:5 S0 - ( e1 )",
 	"T0=A~e~valueLB:2,valueUB:5 S0 - ( e2 )",
@@ -724,6 +735,7 @@ var synDirectedDec = []string{
 // the decoder traps on this schema (fieldType.Field(0) of an empty struct used as reference field); model and code agree on
 // the panic. Run in aper-rt, not in aper-dec: C14 is about the NGAP schema, where a decoder panic is a violation.
 var synDirectedDecTrap = []string{
+	"T0=A~o~sizeLB:0,sizeUB:0 S0 - 00", "T0=A~b~sizeLB:0,sizeUB:0;B~t~ S0 - 80", "T0=A~t~;B~s~sizeExt,sizeLB:0,sizeUB:0;C~t~ S0 - c0",
 	"T0=|T1=Present~i~;A~*t~referenceFieldValue:1|T2=Id~S0~;Value~S1~openType,referenceFieldName:Id S2 - 0180",
 }
 
@@ -755,10 +767,10 @@ func aperSynEnc(e *emitter, g *vgen, roundTrip bool) {
 	}
 	for k := 0; k < nSchemas; k++ {
 		weird := !roundTrip && k%4 == 3
-		schema, ty, params, lbOnly := newSynSchema(e.rng, weird)
+		schema, ty, params := newSynSchema(e.rng, weird, false)
 		t := synType(schema, ty)
 		for j := 0; j < 6; j++ {
-			g.invalid = !roundTrip && j == 5 && !lbOnly
+			g.invalid = !roundTrip && j == 5
 			g.injected = ""
 			if j == 4 && k%8 == 0 {
 				g.longLeft = 1 // one value with a long string where the schema has a string with a general length
@@ -787,7 +799,7 @@ func aperSynDec(e *emitter, g *vgen) {
 		nSchemas = 300 + e.n/10
 	}
 	for k := 0; k < nSchemas; k++ {
-		schema, ty, params, _ := newSynSchema(e.rng, false)
+		schema, ty, params := newSynSchema(e.rng, false, true)
 		t := synType(schema, ty)
 		dec := func(b []byte) { e.op("syndec", schema, ty, paramTok(params), hx(b)) }
 		for j := 0; j < 3; j++ {
